@@ -121,7 +121,14 @@ def gen_compare_prog(rng, nan_bias=False):
         k = rng.random()
         if nan_bias and rng.random() < 0.3 and prog:
             k = 0.95            # a stored NaN (1/0 pushed back onto the non-empty stack) between real operands
-        if k < 0.35:
+        if k < 0.06:
+            # an integer (or integer + 1/2) at or above 2^32 whose LOW limb is small: 16^8 (+ small)
+            prog += [(0, 1, 16, None)] * 8 + [(2, 8, 3, None)]
+            if rng.random() < 0.6:
+                prog += push_value(rng.choice([0, 1, 2, c, max(0, c - 1)])) + [(1, 2, 3, None)]
+            if rng.random() < 0.3:
+                prog += push_value(1) + push_value(2) + [(4, 1, 5, None), (2, 2, 3, None), (1, 2, 3, None)]
+        elif k < 0.35:
             v = max(0, c + rng.choice([-1, 0, 0, 1, -c, c]))
             prog += push_value(v)
         elif k < 0.75:
